@@ -446,4 +446,140 @@ example : runIR irTable w0 (.truth (.var 0)) [] = liftE (eval w0 (.truth (.var 0
   C01_runIR_eq_eval_truth_partial w0 _ _ (by rfl)
 
 
+/-! ### variables and literals as operands (`Variable._evaluate__`), and a closed fragment -/
+
+theorem exec_ifte_eq (lower : CallH) (nd : Node) (w : World) (c : PE) (a b : St) (fr : Frame) :
+    exec lower nd w (.ifte c a b) fr = (do
+      let (v, s) ← evalE lower nd w c fr
+      if truthyV v then exec lower nd w a { fr with isFalse := s } else exec lower nd w b { fr with isFalse := s }) := by
+  rfl
+
+/-- the node `runIRTerm` builds for a variable / literal used as an OPERAND (`condPos = false`) -/
+def ndKey (cls : String) (k : Key) (d : List Val) : Node :=
+  { cls := cls, keyOf := fun | .self => some k | _ => none, condPos := false, domain := some d }
+
+abbrev varBoundBranch : St :=
+  (.seq (.ifte (.bin "or" (.call (.nm "isinstance") (.cons (.att .self "_parent_") (.cons (.nm "LogicalBinaryOperator") .nil))) (.bin "is" .self (.att .self "_conditions_root_"))) (.assign (.att .self "_is_false_") (.un "not" (.call (.nm "bool") (.cons (.idx (.nm "sources") (.att .self "_id_")) .nil)))) .pass) (.seq (.assign (.nm "v0") (.bin "or" (.call (.nm "isinstance") (.cons (.att .self "_parent_") (.cons (.nm "LogicalOperator") .nil))) (.bin "or" (.bin "is" .self (.att .self "_conditions_root_")) (.att .self "_is_condition_of_nested_query_")))) (.yld (.call (.nm "OperationResult") (.cons (.nm "sources") (.cons (.bin "and" (.nm "v0") (.un "not" (.call (.nm "bool") (.cons (.idx (.nm "sources") (.att .self "_id_")) .nil)))) (.cons .self .nil)))))))
+
+abbrev varDomBranch : St :=
+  (.ifte (.att .self "_domain_") (.forIn (.nm "v1") (.att .self "_domain_") (.yld (.call (.nm "OperationResult") (.cons (.dict (.cons (.splat (.nm "sources")) (.cons (.kv (.att .self "_id_") (.call (.nm "HashedValue") (.cons (.nm "v1") .nil))) .nil))) (.cons (.cst "False") (.cons .self .nil)))))) (.ifte (.att .self "_should_be_instantiated_") (.yldFrom (.call (.att .self "_instantiate_using_child_vars_and_yield_results_") (.cons (.nm "sources") .nil))) (.raise (.nm "ValueError"))))
+
+abbrev varYield : St :=
+  (.yld (.call (.nm "OperationResult") (.cons (.dict (.cons (.splat (.nm "sources")) (.cons (.kv (.att .self "_id_") (.call (.nm "HashedValue") (.cons (.nm "v1") .nil))) .nil))) (.cons (.cst "False") (.cons .self .nil)))))
+
+def FRv (env : Env) : Frame := { locals := [("sources", .env { env := env }), ("parent", .none)], isFalse := false }
+
+theorem var_test (lower : CallH) (cls : String) (k : Key) (d : List Val) (w : World) (env : Env) :
+    evalE lower (ndKey cls k d) w (.bin "in" (.att .self "_id_") (.nm "sources")) (FRv env)
+      = .ok (.bool (env.lookup k).isSome, false) := by
+  rfl
+
+theorem var_bound (lower : CallH) (cls : String) (k : Key) (d : List Val) (w : World) (env : Env) :
+    exec lower (ndKey cls k d) w varBoundBranch (FRv env)
+      = .ok { fr := { locals := ("v0", .bool false) :: (FRv env).locals, isFalse := false },
+              ys := [V.res { b := { env := env }, isFalse := false }], ctl := .next } := by
+  rfl
+
+theorem var_dom_body (lower : CallH) (cls : String) (k : Key) (d : List Val) (w : World) (env : Env) (y : Val) (fr : Frame)
+    (hfr : fr = FRv env ∨ ∃ z, fr = { locals := ("v1", z) :: (FRv env).locals, isFalse := false }) :
+    (do let fr2 ← bindTarget fr (.nm "v1") (V.val y); exec lower (ndKey cls k d) w varYield fr2)
+      = .ok { fr := { locals := ("v1", V.val y) :: (FRv env).locals, isFalse := false },
+              ys := [V.res { b := IEnv.bind (ndKey cls k d) (IEnv.merge { env := [] } { env := env }) .self y, isFalse := false }],
+              ctl := .next } := by
+  rcases hfr with rfl | ⟨z, rfl⟩ <;> rfl
+
+theorem mapM_conv_key (nd : Node) (k : Key) (hk : nd.keyOf .self = some k) (env : Env) (ys : List Val) :
+    (ys.map fun y => V.res { b := IEnv.bind nd (IEnv.merge { env := [] } { env := env }) .self y, isFalse := false }).mapM (conv nd)
+      = (pure (ys.map fun x => ((k, x) :: env, x, true)) : R _) := by
+  induction ys with
+  | nil => rfl
+  | cons y rest ih =>
+    simp only [List.map_cons, List.mapM_cons, ih]
+    simp [conv, IEnv.bind, IEnv.merge, Eql.merge, hk, List.lookup]
+
+theorem find_mVarLit : irTable.find "Literal" "_evaluate__" = some mVar := by rfl
+
+/-- `Variable._evaluate__` (also `Literal`) for a node used as an operand: bound → the bound value, flagged true;
+unbound → one result per domain element -/
+theorem runNode_key (cls : String) (hfind : irTable.find cls "_evaluate__" = some mVar) (k : Key) (d : List Val)
+    (w : World) (env : Env) :
+    runNode irTable (ndKey cls k d) w env = .ok (match env.lookup k with
+      | some x => [(env, x, true)]
+      | none => d.map fun x => ((k, x) :: env, x, true)) := by
+  rw [runNode_eq, callTop, callWith_find _ _ _ _ _ _ _ mVar hfind]
+  simp only [mVar, bindParams]
+  rw [prologue, exec_ifte_eq]
+  rw [show ({ locals := [("sources", V.env { env := env }), ("parent", V.none)], isFalse := false } : Frame) = FRv env from rfl,
+    var_test]
+  cases h : env.lookup k with
+  | some x =>
+    show (exec (L3 (ndKey cls k d) w) (ndKey cls k d) w varBoundBranch (FRv env) >>= post >>= fun p => iterV p.1 >>= fun xs => xs.mapM (conv (ndKey cls k d))) = _
+    rw [var_bound]
+    show [V.res { b := { env := env }, isFalse := false }].mapM (conv (ndKey cls k d)) = _
+    simp [conv, ndKey, h, List.lookup]
+    rfl
+  | none =>
+    show (exec (L3 (ndKey cls k d) w) (ndKey cls k d) w varDomBranch (FRv env) >>= post >>= fun p => iterV p.1 >>= fun xs => xs.mapM (conv (ndKey cls k d))) = _
+    have hloop : exec (L3 (ndKey cls k d) w) (ndKey cls k d) w varDomBranch (FRv env)
+        = .ok { fr := d.foldl (fun _ y => { locals := ("v1", V.val y) :: (FRv env).locals, isFalse := false }) (FRv env),
+                ys := d.flatMap fun y => [V.res { b := IEnv.bind (ndKey cls k d) (IEnv.merge { env := [] } { env := env }) .self y, isFalse := false }],
+                ctl := .next } := by
+      show exec (L3 (ndKey cls k d) w) (ndKey cls k d) w (.forIn (.nm "v1") (.att .self "_domain_") varYield) (FRv env) = _
+      rw [exec_forIn]
+      show loopSt (d.map V.val) (FRv env) (fun x fr1 => do let fr2 ← bindTarget fr1 (.nm "v1") x; exec (L3 (ndKey cls k d) w) (ndKey cls k d) w varYield fr2) = _
+      exact loopSt_det _ (fun fr => fr = FRv env ∨ ∃ z, fr = { locals := ("v1", z) :: (FRv env).locals, isFalse := false })
+        (fun y _ => { locals := ("v1", V.val y) :: (FRv env).locals, isFalse := false })
+        (fun y => [V.res { b := IEnv.bind (ndKey cls k d) (IEnv.merge { env := [] } { env := env }) .self y, isFalse := false }])
+        V.val (fun y fr hfr => ⟨Or.inr ⟨_, rfl⟩, var_dom_body _ cls k d w env y fr hfr⟩) d (FRv env) (Or.inl rfl)
+    rw [hloop, flatMap_single]
+    show (d.map fun y => V.res { b := IEnv.bind (ndKey cls k d) (IEnv.merge { env := [] } { env := env }) .self y, isFalse := false }).mapM (conv (ndKey cls k d)) = _
+    rw [mapM_conv_key (ndKey cls k d) k rfl]
+    rfl
+
+/-- a variable used as an operand: `runIRTerm irTable` IS `evalTerm` (no hypothesis) -/
+theorem C01_runIRTerm_var_operand (w : World) (v : VarId) (env : Env) :
+    runIRTerm irTable w false (.var v) env = liftE (evalTerm w false (.var v) env) := by
+  rw [runIRTerm]
+  show runNode irTable (ndKey "Variable" (.var v) (w.dom v)) w env = _
+  rw [runNode_key _ find_mVar]
+  simp only [evalTerm, evalVarAt, boundFlag, liftE]
+  cases env.lookup (.var v) <;> rfl
+
+/-- a literal used as an operand -/
+theorem C01_runIRTerm_lit_operand (w : World) (id : VarId) (x : Val) (env : Env) :
+    runIRTerm irTable w false (.lit id x) env = liftE (evalTerm w false (.lit id x) env) := by
+  rw [runIRTerm]
+  show runNode irTable (ndKey "Literal" (.lit id) [x]) w env = _
+  rw [runNode_key _ find_mVarLit]
+  simp only [evalTerm, boundFlag, liftE]
+  cases env.lookup (.lit id) <;> rfl
+
+/-- a fragment on which `runIR irTable = eval` holds WITHOUT hypotheses: `HasType` of a variable or a literal under
+`not_` / `and_` / `or_` (both forms) -/
+inductive IRFrag : Expr → Prop where
+  | hasTypeVar (v : VarId) (c : Nat) : IRFrag (.hasType (.var v) c)
+  | hasTypeLit (id : VarId) (x : Val) (c : Nat) : IRFrag (.hasType (.lit id x) c)
+  | not {e} (h : IRFrag e) : IRFrag (.not e)
+  | and {l r} (hl : IRFrag l) (hr : IRFrag r) : IRFrag (.and l r)
+  | elseIf {l r} (hl : IRFrag l) (hr : IRFrag r) : IRFrag (.elseIf l r)
+  | union {l r} (hl : IRFrag l) (hr : IRFrag r) : IRFrag (.union l r)
+
+/-- PARTIAL form of `∀ e env, runIR irTable w e env = liftE (eval w e env)`: proved for the fragment `IRFrag`, every
+world, every environment (missing: `Comparator`, attribute / index / flatten terms, terms as conditions, `Exists`,
+`ForAll` — validated by the driver cross-check on every case) -/
+theorem C01_runIR_eq_eval_frag_partial (w : World) : ∀ e, IRFrag e → ∀ env, runIR irTable w e env = liftE (eval w e env) := by
+  intro e h
+  induction h with
+  | hasTypeVar v c => exact fun env => C01_runIR_eq_eval_hasType_partial w _ c env (C01_runIRTerm_var_operand w v env)
+  | hasTypeLit id x c => exact fun env => C01_runIR_eq_eval_hasType_partial w _ c env (C01_runIRTerm_lit_operand w id x env)
+  | not _ ih => exact fun env => C01_runIR_eq_eval_not_partial w _ env (ih env)
+  | and _ _ ihl ihr => exact fun env => C01_runIR_eq_eval_and_partial w _ _ env (ihl env) (fun _ _ p _ _ => ihr p.1)
+  | elseIf _ _ ihl ihr => exact fun env => C01_runIR_eq_eval_elseIf_partial w _ _ env (ihl env) (fun _ _ p _ _ => ihr p.1)
+  | union _ _ ihl ihr =>
+    exact fun env => C01_runIR_eq_eval_union_partial w _ _ env (ihl env) (fun _ _ p _ _ => ihr p.1) (ihr env)
+
+example : IRFrag (.union (.and (.hasType (.var 0) 1) (.not (.hasType (.var 1) 2))) (.elseIf (.hasType (.lit 7 (.int 3)) 1) (.hasType (.var 0) 2))) :=
+  .union (.and (.hasTypeVar 0 1) (.not (.hasTypeVar 1 2))) (.elseIf (.hasTypeLit 7 (.int 3) 1) (.hasTypeVar 0 2))
+
+
 end KrroodVerif.Eql.IR
